@@ -35,7 +35,7 @@ def check(rep, ctx):
         "int8 attributes, zig-zag varlong timestamp delta, zig-zag varint offset delta, nullable key/value, header count "
         "and headers. E6: the millisecond conversions do not truncate an inexact float. Not decided: CRC-32C itself.")
     R_L = rep.rule("C17-layout", "batch header fields are written in the v2 order with the v2 formats", floor=13)
-    R_P = rep.rule("C17-provenance", "every header slot is derived from the records as the format prescribes", floor=20)
+    R_P = rep.rule("C17-provenance", "every header slot is derived from the records as the format prescribes", floor=10)
     R_F = rep.rule("C17-framing", "batchLength / CRC / appended bytes refer to the same staged bytes; the length constant is "
                    "the size of the fields between batchLength and the staged bytes", floor=4)
     R_R = rep.rule("C17-record", "a record is written as varint length + attributes, timestamp delta, offset delta, key, value, headers", floor=6)
